@@ -419,6 +419,7 @@ impl Deserialize for AuxiliaryData {
                     let len = raw.array()?;
                     let mut read_len = CBORReadLen::new(len);
                     read_len.read_elems(2)?;
+                    read_len.finish()?;
                     let metadata = (|| -> Result<_, DeserializeError> {
                         Ok(GeneralTransactionMetadata::deserialize(raw)?)
                     })()
